@@ -270,7 +270,18 @@ func (w *w1World) rawEdge(nowUnix uint32) {
 	if w.c.Keyed(3, w1SaltRaw, uint64(nowUnix), 500) != 0 {
 		return
 	}
-	T := nowUnix - uint32(w.cfg.shortWindow) - uint32(w.cfg.window)
+	// oldest recent second of the owning replica = now - its short window (which its remote configuration
+	// may have changed); the owner of second T is replica T%3
+	var T uint32
+	for _, rep := range w.reps {
+		if t := nowUnix - uint32(w1ShortWindow(rep.agg)) - uint32(w.cfg.window); int(t%3) == rep.idx {
+			T = t
+			break
+		}
+	}
+	if T == 0 {
+		return
+	}
 	var sb tlstatshouse.SourceBucket3
 	key := data_model.Key{Timestamp: T, Metric: w1MetricMarker}
 	key.Tags[1] = int32(w.cfg.agents + 2 + 1)
